@@ -13,7 +13,7 @@ from engine.chx import Assume, Violation, reach
 
 PROPERTY = 'C18'
 LEVEL = 'model_checking'
-REACH_POINTS = ['ctor.ok', 'ctor.error', 'late.ok', 'late.error', 'split.ok', 'split.error', 'class.ok', 'class.error',
+REACH_POINTS = ['rebind.ok', 'subclassed.ok', 'subclassed.raised', 'ctor.ok', 'ctor.error', 'late.ok', 'late.error', 'split.ok', 'split.error', 'class.ok', 'class.error',
                 'roundtrip']
 
 SIG_SRC = {
@@ -197,6 +197,110 @@ def h_split(params, c0, c1, c2, c3, c4, p, m0, m1, m2, m3, m4, override):
   return None
 
 
+# ---- binding later through rebind / attribute assignment -----------------------------------
+
+def sd(cfg, scale=1, bias=0, *, mode=7, **kw):
+  return ('sd', cfg['k'], scale, bias, mode, tuple(sorted(kw.items())))
+
+
+SD = pg.functor()(sd)
+
+
+def h_rebind(params, c_scale, c_bias, r_k, r_scale, r_bias, r_mode, r_extra, order, via_setattr):
+  """Arguments bound later via rebind (nested paths mixed with top-level names, in either order) or attribute
+  assignment; then called. Compared with the direct call on the effective arguments."""
+  ckw = {}
+  if c_scale:
+    ckw['scale'] = 11
+  if c_bias:
+    ckw['bias'] = 12
+  obj = SD(cfg=dict(k=1), **ckw)
+  eff = dict(cfg=dict(k=1), **ckw)
+  later = []
+  if r_k:
+    later.append(('cfg.k', 5))
+    eff['cfg'] = dict(k=5)
+  if r_scale:
+    later.append(('scale', 21))
+    eff['scale'] = 21
+  if r_bias:
+    later.append(('bias', 22))
+    eff['bias'] = 22
+  if r_mode:
+    later.append(('mode', 23))
+    eff['mode'] = 23
+  if r_extra:
+    later.append(('zz', 24))
+    eff['zz'] = 24
+  if not later:
+    raise Assume()
+  if order:
+    later.reverse()
+  if via_setattr:
+    with pg.allow_writable_accessors(True):
+      for k, v in later:
+        if k == 'cfg.k':
+          obj.cfg.k = v
+        else:
+          obj.__setattr__(k, v)
+  else:
+    obj.rebind(dict(later))
+  reach('rebind.ok')
+  want = sd(**eff)
+  got, err = _call(obj, [], {})
+  if err is not None or got != want:
+    return Violation('rebind:result_differs:' + ('setattr' if via_setattr else 'rebind'),
+                     f'ctor {ckw} later {later}: direct {want!r}, functor {got!r} {err}')
+  for how, o2 in (('clone', obj.clone(deep=True)), ('json', pg.from_json(pg.to_json(obj)))):
+    g2, e2 = _call(o2, [], {})
+    if e2 is not None or g2 != want:
+      return Violation(f'rebind:{how}_differs', f'ctor {ckw} later {later}: direct {want!r}, after {how} {g2!r} {e2}')
+  return None
+
+
+class Div(pg.Functor):
+  """A class-based functor (fields + _call)."""
+  x: int
+  y: int = 2
+  z: int = 0
+
+  def _call(self):
+    return (self.x // self.y) + self.z
+
+
+def h_subclassed(params, v, use_z, again):
+  """Call-time overrides of a class-based functor are visible only during the call, also when it raises."""
+  yv = None
+  for c in range(-1, 3):
+    if v == c:
+      yv = c
+  if yv is None:
+    raise Assume()
+  d = Div(x=8)
+  kwargs = dict(y=yv, override_args=True)
+  if use_z:
+    kwargs['z'] = 5
+  try:
+    want = (8 // yv) + (5 if use_z else 0)
+    werr = None
+  except ZeroDivisionError:
+    want, werr = None, 'ZeroDivisionError'
+  try:
+    got, gerr = d(**kwargs), None
+  except ZeroDivisionError:
+    got, gerr = None, 'ZeroDivisionError'
+  reach('subclassed.ok' if werr is None else 'subclassed.raised')
+  if (got, gerr) != (want, werr):
+    return Violation('subclassed:call_differs', f'y={yv}: direct {want} {werr}, functor {got} {gerr}')
+  # afterwards the object reports and uses its own arguments again
+  if d.y != 2 or d.z != 0 or d.sym_init_args.y != 2:
+    return Violation('subclassed:call_time_override_persisted' + (':after_exception' if werr else ''),
+                     f'after d(y={yv}): d.y={d.y} d.z={d.z}')
+  if again and d() != 4:
+    return Violation('subclassed:second_call_differs' + (':after_exception' if werr else ''), f'{d()}')
+  return None
+
+
 # ---- symbolized classes --------------------------------------------------------------------
 CLASS_SRC = {
     'K2d': 'class K2d:\n  def __init__(self, a, b=2):\n    self.a, self.b = a, b',
@@ -271,6 +375,11 @@ def shards(tier, seed):
     out.append(dict(name=f'late:{name}', fn='h_late', params=dict(sig=name), args=_CALL, budget_s=b, per_path_s=20))
     out.append(dict(name=f'split:{name}', fn='h_split', params=dict(sig=name), args=_SPLIT, budget_s=b * 2, per_path_s=20))
     out.append(dict(name=f'signature:{name}', fn='h_signature', params=dict(sig=name), args=[('dummy', 'int')], budget_s=10, per_path_s=10))
+  out.append(dict(name='rebind', fn='h_rebind', params={},
+                  args=[(n, 'bool') for n in ('c_scale', 'c_bias', 'r_k', 'r_scale', 'r_bias', 'r_mode', 'r_extra', 'order', 'via_setattr')],
+                  budget_s=b * 2, per_path_s=20))
+  out.append(dict(name='subclassed', fn='h_subclassed', params={}, args=[('v', 'int'), ('use_z', 'bool'), ('again', 'bool')],
+                  budget_s=b, per_path_s=20))
   for name in CLASS_SRC:
     out.append(dict(name=f'class:{name}', fn='h_class', params=dict(cls=name), args=_CALL, budget_s=b, per_path_s=20))
   return out
